@@ -1,3 +1,4 @@
+import WS.Lemmas.RoleGeneric
 import WS.Lemmas.ReaderRejects
 import WS.Lemmas.ReaderDecodes
 /-
@@ -49,6 +50,30 @@ theorem handler_error_sticky (c : Conn) (id : Nat) (he : c.r.readErr = some (.ha
     ∃ c', nextReader c = (.err (.handler id), c') ∧ c'.r.readErr = some (.handler id) := by
   obtain ⟨c', h1, h2, _⟩ := ReaderRejects.nextReader_sticky c (.handler id) he hn
   exact ⟨c', h1, h2⟩
+
+open WS.Codec WS.ReaderDecodes WS.RoleGeneric in
+/-- default_ping_pong for either role (a server-side reader unmasks the ping with the frame's key; the
+    pong carries the unmasked payload) -/
+theorem default_ping_pong_any_role (c : Conn) (hc : AtBoundary c) (hw : WHealthy c.w) (hd : c.r.hPing = .dflt)
+    (key : Key) (payload rest : Bytes) (hl : payload.length ≤ 125)
+    (hp : c.r.buf.pending = PFrame.enc c.r.isServer ⟨9, true, key, payload⟩ ++ rest) :
+    ∃ c', advanceFrame c = (.ok 9, c') ∧ c'.r.hlog = c.r.hlog ++ [.ping payload] ∧ c'.r.buf.pending = rest ∧
+      c'.w.wire = c.w.wire ++ controlFrame c.w.isServer 10 payload (ctlKey c.w).1 ∧
+      c'.r.readErr = none ∧ c'.r.final = c.r.final := by
+  first | exact RoleGeneric.ping_answered_any .. | (apply RoleGeneric.ping_answered_any <;> assumption)
+
+open WS.Codec WS.ReaderDecodes WS.RoleGeneric in
+/-- default_close_echo for either role -/
+theorem default_close_echo_any_role (c : Conn) (hc : AtBoundary c) (hw : WHealthy c.w) (hd : c.r.hClose = .dflt)
+    (key : Key) (code : Nat) (reason rest : Bytes)
+    (hcode : isValidReceivedCloseCode code = true) (hc16 : code < 65536) (hutf : Spec.validUtf8 reason = true)
+    (hl : reason.length ≤ 123)
+    (hp : c.r.buf.pending = PFrame.enc c.r.isServer ⟨8, true, key, beBytes 2 code ++ reason⟩ ++ rest) :
+    ∃ c', advanceFrame c = (.error (.close code reason), c') ∧ c'.r.hlog = c.r.hlog ++ [.close code reason] ∧
+      c'.w.wire = c.w.wire ++ controlFrame c.w.isServer 8 (closePayload code []) (ctlKey c.w).1 ∧
+      c'.w.writeErr = some .closeSent := by
+  first | exact RoleGeneric.close_echoed_any .. | (apply RoleGeneric.close_echoed_any <;> assumption)
+
 
 /-! ### non-vacuity -/
 section NonVacuity
